@@ -6,6 +6,7 @@ pub mod chunks;
 pub mod fw;
 pub mod gen;
 pub mod mutate;
+pub mod net;
 pub mod obs;
 pub mod refint;
 pub mod res;
